@@ -75,13 +75,16 @@ pub struct Tracker
     /// contents that were at a target path or in the cache before some ruler invocation of this history and nowhere
     /// after it (C08's violation), remembered so that C02 can say why a later rebuild was unnecessary
     pub lost_by_ruler : BTreeSet<Vec<u8>>,
+    /// C10: the last operation was a clean that directly followed a successful build of the same goal:
+    /// (number of operations up to and including the clean, goal, the in-scope targets as they were before the clean)
+    pub cleaned_up_to_date : Option<(usize, Option<String>, BTreeMap<String, (Vec<u8>, bool)>)>,
 }
 
 impl Tracker
 {
     pub fn new(label : &str, deterministic : bool) -> Tracker
     {
-        Tracker{scenario : None, ever_targets : BTreeSet::new(), ledger : vec![], deterministic : deterministic, last_ok_build : None, label : label.to_string(), lost_by_ruler : BTreeSet::new()}
+        Tracker{scenario : None, ever_targets : BTreeSet::new(), ledger : vec![], deterministic : deterministic, last_ok_build : None, label : label.to_string(), lost_by_ruler : BTreeSet::new(), cleaned_up_to_date : None}
     }
 }
 
@@ -210,6 +213,35 @@ pub fn monitor_invocation(out : &mut Out, tr : &mut Tracker, inv : &Invocation, 
 
     if is_build
     {
+        // ---- C10 (second half): the build that directly follows a clean of up-to-date targets brings them back ----
+        if let Some((n, g, snap)) = tr.cleaned_up_to_date.take()
+        {
+            if ops_so_far.len() == n + 1 && g == goal && tr.deterministic
+            {
+                if !inv.verdict.is_ok()
+                {
+                    out.violation("C10:build-after-clean-fails", format!("the targets were up to date before the clean, yet the following build gives {}", inv.verdict.show()), replay());
+                }
+                else
+                {
+                    let distinct : BTreeSet<&Vec<u8>> = snap.values().map(|(c, _)| c).collect();
+                    let unique = distinct.len() == snap.len();
+                    for (t, (c, x)) in snap.iter()
+                    {
+                        match inv.after.files.get(t)
+                        {
+                            None => { out.violation("C10:target-not-brought-back", format!("{:?} is missing after the build that follows the clean", t), replay()); break; },
+                            Some(node) => if *node.content != *c { out.violation("C10:target-not-identical", format!("{:?} came back with other content than it had before the clean", t), replay()); break; }
+                                          else if unique && node.exec != *x { out.violation("C10:permission-lost", format!("{:?} came back with executable = {} (was {})", t, node.exec, x), replay()); break; },
+                        }
+                    }
+                    if unique && !inv.commands.is_empty()
+                    {
+                        out.violation("C10:command-ran-after-clean", format!("the cleaned targets' contents are pairwise different, yet the following build ran {:?}", inv.commands.iter().map(|c| c.1.clone()).collect::<Vec<_>>()), replay());
+                    }
+                }
+            }
+        }
         // which rules ran their command in this build (a rule's script lines are unique to it up to equal scripts)
         let mut ran : BTreeMap<usize, usize> = BTreeMap::new();
         {
@@ -395,6 +427,27 @@ pub fn monitor_invocation(out : &mut Out, tr : &mut Tracker, inv : &Invocation, 
                     if !per_path.contains_key(t) { out.violation("C20:missing-status", format!("build succeeded but target {:?} got no status line", t), replay()); }
                 }
             }
+            // a rule whose command ran in this build, and whose command succeeds on the current sources, has
+            // finished — whatever happened to other rules: each of its targets needs its line
+            if let (Some(scratch), Some(scope)) = (&scratch, &scope)
+            {
+                if tr.deterministic && !matches!(inv.verdict, Verdict::Panic(_) | Verdict::Fatal(_)) && !inv.deadlock
+                {
+                    for i in scope.iter()
+                    {
+                        if let RuleOutcome::Built(cs) = &scratch[*i]
+                        {
+                            if !ran.contains_key(i) { continue; }
+                            let in_place = sc.rules[*i].targets.iter().zip(cs.iter()).all(|(t, c)| files_after.get(t) == Some(c));
+                            if !in_place { continue; }
+                            for t in sc.rules[*i].targets.iter()
+                            {
+                                if !per_path.contains_key(t) { out.violation("C20:missing-status-for-finished-rule", format!("the command of {:?} ran in this build and its targets are in place, but {:?} got no status line", sc.rules[*i].targets, t), replay()); break; }
+                            }
+                        }
+                    }
+                }
+            }
             // targets of failed or blocked rules get no success status
             if let (Some(scratch), Some(scope)) = (&scratch, &scope)
             {
@@ -458,6 +511,7 @@ pub fn monitor_invocation(out : &mut Out, tr : &mut Tracker, inv : &Invocation, 
                     Verdict::WorkErrors(es) if es.len() != expected =>
                     {
                         out.violation("C04:wrong-number-of-errors", format!("{} rules fail and {} leaves are missing, but {} errors are reported: {:?}", failing.len(), missing.len(), es.len(), es), replay());
+                        out.violation("C20:failure-not-reported-once", format!("{} rules fail and {} leaves are missing, but {} errors are reported: {:?}", failing.len(), missing.len(), es.len(), es), replay());
                     },
                     _ => {},
                 }
@@ -504,6 +558,13 @@ pub fn monitor_invocation(out : &mut Out, tr : &mut Tracker, inv : &Invocation, 
                 }
             }
             if !inv.commands.is_empty() { out.violation("C10:clean-runs-command", "clean ran a command".to_string(), replay()); }
+        }
+        // C10 (second half) is checked at the build that directly follows, when the targets were up to date before this clean
+        tr.cleaned_up_to_date = None;
+        if inv.verdict.is_ok() && tr.last_ok_build == Some(goal.clone()) && ops_so_far.len() >= 2 && matches!(&ops_so_far[ops_so_far.len() - 2], Op::Build(g) if *g == goal)
+        {
+            let snap : BTreeMap<String, (Vec<u8>, bool)> = in_scope_targets.iter().filter_map(|t| inv.before.files.get(t).map(|n| (t.clone(), ((*n.content).clone(), n.exec)))).collect();
+            tr.cleaned_up_to_date = Some((ops_so_far.len(), goal.clone(), snap));
         }
         tr.last_ok_build = None;
     }
@@ -673,6 +734,8 @@ pub fn run_fixed(out : &mut Out, label : &str, coarse : bool, t0 : u64, ops : &[
     -> (Vec<String>, Vec<BuildResult>)
 {
     let driver = Driver::new(if coarse { ClockMode::Coarse } else { ClockMode::Fine }, t0);
+    // swap_ops' undeclared input `u`: commands are then no functions of their declared sources
+    let deterministic = deterministic && !ops.iter().any(|o| matches!(o, Op::Write(p, _) if p == "u"));
     let mut tr = Tracker::new(label, deterministic);
     let mut obs : Vec<String> = vec![];
     let mut results : Vec<BuildResult> = vec![];
@@ -763,11 +826,14 @@ pub fn swap_ops(r : &mut Rng) -> Vec<Op>
 {
     let two_target = r.chance(1, 2);
     let with_top = r.chance(1, 3);
+    // the two-target rule reads an UNDECLARED (always empty) file `u`: while `u` is away the rule's command fails for a
+    // reason that changes neither the rule nor its sources — possibly after some of its targets were already restored
+    let with_undeclared = two_target && r.chance(1, 3);
     let render = |bad : bool| -> Vec<u8>
     {
         let mk = |ts : Vec<&str>, ss : Vec<&str>, script : Vec<String>| RuleSpec{targets : ts.iter().map(|x| x.to_string()).collect(), sources : ss.iter().map(|x| x.to_string()).collect(), script : script, raw_command : None};
         let mut rules = vec![];
-        if two_target { rules.push(mk(vec!["t1", "t2"], vec!["a", "b"], vec!["gen t1 @a".to_string(), "gen t2 @b".to_string()])); }
+        if two_target { rules.push(mk(vec!["t1", "t2"], vec!["a", "b"], vec![if with_undeclared { "gen t1 @a @u".to_string() } else { "gen t1 @a".to_string() }, "gen t2 @b".to_string()])); }
         else { rules.push(mk(vec!["t1"], vec!["a"], vec!["gen t1 @a".to_string()])); rules.push(mk(vec!["t2"], vec!["b"], vec!["gen t2 @b".to_string()])); }
         if with_top { rules.push(mk(vec!["top"], vec!["t1", "t2"], vec!["gen top @t1 =+ @t2".to_string()])); }
         if bad { rules.push(mk(vec!["bad"], vec!["a"], vec!["fail".to_string()])); }
@@ -781,9 +847,12 @@ pub fn swap_ops(r : &mut Rng) -> Vec<Op>
     let mut seen : Vec<(usize, usize)> = vec![cur];
     ops.push(Op::Write("a".to_string(), vals[cur.0].as_bytes().to_vec()));
     ops.push(Op::Write("b".to_string(), vals[cur.1].as_bytes().to_vec()));
+    if with_undeclared { ops.push(Op::Write("u".to_string(), vec![])); }
+    let mut u_there = true;
     ops.push(Op::Build(None));
     for _ in 0..r.range(3, 7)
     {
+        if with_undeclared && r.chance(1, 3) { if u_there { ops.push(Op::Remove("u".to_string())); } else { ops.push(Op::Write("u".to_string(), vec![])); } u_there = !u_there; }
         // new leaf values: exchange, go back to an earlier pair, or something new
         let next = match r.below(5) { 0 | 1 => (cur.1, cur.0), 2 | 3 => *r.pick(&seen), _ => (r.below(3), r.below(3)) };
         if next.0 != cur.0 { ops.push(Op::Write("a".to_string(), vals[next.0].as_bytes().to_vec())); }
@@ -796,6 +865,8 @@ pub fn swap_ops(r : &mut Rng) -> Vec<Op>
         if r.chance(1, 5) { ops.push(Op::Build(None)); }
     }
     if bad { ops.push(Op::Write(RULES_PATH.to_string(), render(false))); }
+    if with_undeclared && !u_there { ops.push(Op::Write("u".to_string(), vec![])); }
+    ops.push(Op::Build(None));
     ops.push(Op::Clean(None));
     ops.push(Op::Build(None));
     ops
@@ -905,6 +976,22 @@ pub fn mixed_ops(r : &mut Rng) -> Vec<Op>
         ops.push(Op::Build(None));
         ops.push(Op::Build(None));
     }
+    // now and then: everything brought up to date from leaf values "1"; one target moved aside; the leaves change and
+    // come back with a build in between; the copy (what the history remembers for these sources, only OLDER than what
+    // the table remembers for the path) is moved back: the next builds must run nothing
+    if MOVE_OPS && r.chance(1, 3)
+    {
+        let t = r.pick(&names[..n_targets]).to_string();
+        for l in leaves.iter() { ops.push(Op::Write(l.to_string(), b"1".to_vec())); }
+        ops.push(Op::Build(None));
+        ops.push(Op::Move(t.clone(), format!("{}.bak", t)));
+        for l in leaves.iter() { ops.push(Op::Write(l.to_string(), b"7".to_vec())); }
+        ops.push(Op::Build(None));
+        for l in leaves.iter() { ops.push(Op::Write(l.to_string(), b"1".to_vec())); }
+        ops.push(Op::Move(format!("{}.bak", t), t.clone()));
+        ops.push(Op::Build(None));
+        ops.push(Op::Build(None));
+    }
     ops
 }
 
@@ -975,6 +1062,55 @@ pub fn swap(ctx : &Ctx, out : &mut Out)
         let (obs, results) = run_fixed(out, "swap", coarse, 1_000_000, &ops, true, &Policy::Serial, true);
         emit_case(out, coarse, 1_000_000, &ops, &obs, true);
         paired(out, "swap", coarse, 1_000_000, &ops, Some(results));
+    }
+}
+
+/// The clock starts at 0 and the very first thing that happens is the user writing a TARGET path by hand, with a
+/// value the rules will later produce: that file carries modification time 0 — the time of "nothing remembered"
+/// (FileState::empty()) — is displaced into the cache by the first build and comes back through recoveries of the
+/// swap histories. All monitors, both clocks, paired runs. (Files dated 1970-01-01 are what reproducible-build tools
+/// and some archivers produce; defect F5 lived here.)
+pub fn epoch(ctx : &Ctx, out : &mut Out)
+{
+    let mut rng = Rng::new(ctx.seed).fork(1970);
+    let n = if ctx.thorough { 2000 } else { 80 };
+    for i in 0..n
+    {
+        let coarse = i % 2 == 1;
+        let mut r = rng.fork(i as u64);
+        let mut ops = vec![];
+        if coarse && i % 4 == 1
+        {
+            // directed: a copy dated 0 is kept aside, moved into the target path later (the user restores a backup), so that
+            // ruler displaces it into the cache, later RECOVERS it (a file dated 0 at a path whose remembered state describes
+            // another file), and displaces it again after the next edit
+            let (x, y, z) = (r.pick(&["1", "2"]).to_string(), "3".to_string(), r.pick(&["4", "5"]).to_string());
+            // (with the single rule no two files are ever written in one tick, so the monitors that assume distinct
+            // modification times stay switched on although the clock is the coarse one)
+            let mut rule_list = vec![RuleSpec{targets : vec!["t1".to_string()], sources : vec!["a".to_string()], script : vec!["gen t1 @a".to_string()], raw_command : None}];
+            if i % 8 == 5 { rule_list.push(RuleSpec{targets : vec!["t2".to_string()], sources : vec!["t1".to_string()], script : vec!["gen t2 =T @t1".to_string()], raw_command : None}); }
+            let rules = Scenario{rules : rule_list, split_tokens : false}.render().into_bytes();
+            ops.push(Op::Write("t1.bak".to_string(), x.as_bytes().to_vec()));
+            ops.push(Op::Write(RULES_PATH.to_string(), rules));
+            ops.push(Op::Write("a".to_string(), x.as_bytes().to_vec())); ops.push(Op::Build(None));
+            ops.push(Op::Write("a".to_string(), y.as_bytes().to_vec())); ops.push(Op::Build(None));
+            ops.push(Op::Move("t1.bak".to_string(), "t1".to_string())); ops.push(Op::Build(None));
+            ops.push(Op::Write("a".to_string(), x.as_bytes().to_vec())); ops.push(Op::Build(None));
+            ops.push(Op::Write("a".to_string(), z.as_bytes().to_vec())); ops.push(Op::Build(None));
+            ops.push(Op::Write("a".to_string(), y.as_bytes().to_vec())); ops.push(Op::Build(None));
+            ops.push(Op::Write("a".to_string(), x.as_bytes().to_vec())); ops.push(Op::Build(None));
+            ops.push(Op::Clean(None)); ops.push(Op::Build(None));
+        }
+        else
+        {
+            let target = if r.chance(1, 2) { "t1" } else { "t2" };
+            ops.push(Op::Write(target.to_string(), r.pick(&["1", "2", "3"]).as_bytes().to_vec()));
+            ops.extend(swap_ops(&mut r));
+        }
+        out.count(if coarse { "epoch-histories:coarse" } else { "epoch-histories:fine" });
+        let (obs, results) = run_fixed(out, "epoch", coarse, 0, &ops, true, &Policy::Serial, true);
+        emit_case(out, coarse, 0, &ops, &obs, true);
+        paired(out, "epoch", coarse, 0, &ops, Some(results));
     }
 }
 
